@@ -71,6 +71,8 @@ class FakeClient:
     connect_error: BaseException | None = None
     publish_error: BaseException | None = None
     subscribe_error: BaseException | None = None
+    subscribe_fail_calls: set = set()   # indexes (since reset) of subscribe() calls the broker refuses
+    subscribe_calls = 0
     exit_error: BaseException | None = None
     echo_prefixes: tuple[str, str] | None = None  # (out_prefix, in_prefix): publishes are echoed back
 
@@ -125,6 +127,12 @@ class FakeClient:
         await asyncio.sleep(0)
         if FakeClient.subscribe_error is not None:
             raise FakeClient.subscribe_error
+        index = FakeClient.subscribe_calls
+        FakeClient.subscribe_calls += 1
+        if index in FakeClient.subscribe_fail_calls:
+            from aiomqtt import MqttError
+
+            raise MqttError("subscription refused (ACL)")
         self.subscriptions.append((topic, qos))
 
     # harness side
@@ -138,6 +146,8 @@ class FakeClient:
     def reset(cls) -> None:
         cls.instances = []
         cls.connect_error = cls.publish_error = cls.subscribe_error = cls.exit_error = None
+        cls.subscribe_fail_calls = set()
+        cls.subscribe_calls = 0
         cls.echo_prefixes = None
         cls.publish_gate = None
         cls.exit_delay = 0.0
